@@ -35,7 +35,7 @@ type Mode struct {
 // non-initial states too"): a lagging participant whose inbox is withheld for a while, or a partition of
 // the honest participants with a Byzantine participant that echoes every honest vote back to its sender.
 type Policy struct {
-	Kind       string  // "", "lag", "partition"
+	Kind       string  // "", "lag", "partition", "slow", "latestart"
 	Lagger     int     // lag: participant whose incoming messages are withheld
 	FlushRound uint64  // lag: the inbox is released once another honest participant reaches this round (or is done)
 	LIFO       bool    // lag: release newest first
@@ -55,6 +55,8 @@ func (p Policy) String() string {
 	switch p.Kind {
 	case "lag":
 		return fmt.Sprintf("lag(p%d until round %d, lifo=%v)", p.Lagger, p.FlushRound, p.LIFO)
+	case "latestart":
+		return fmt.Sprintf("latestart(p%d until round %d or the others are done)", p.Lagger, p.FlushRound)
 	case "partition":
 		return fmt.Sprintf("partition(%v heal@%d echo=%v)", p.Groups, p.HealAfter, p.Echo)
 	case "slow":
